@@ -59,46 +59,49 @@ Proof.
   - rewrite <- succ_key. split; auto. intros [->|H]; auto. apply lex_lt_nil_l; auto.
 Qed.
 
-Lemma encode_hi_spec b k : k <> [] -> b <> BClosed [] ->
-  (let e := match b with BClosed e => e ++ [0%N] | BOpen e => e | BUnset => [] end in
+(* an empty closed end is encoded as "no end" (like an unset one), any other closed end by
+   appending a zero byte *)
+Lemma encode_hi_spec b k : k <> [] ->
+  (let e := match b with
+            | BClosed [] => []
+            | BClosed e => e ++ [0%N] | BOpen e => e | BUnset => [] end in
    e = [] \/ lex_lt k e) <-> in_bound_hi b k.
 Proof.
-  intros Hk Hb. destruct b as [|e|e]; cbn [in_bound_hi].
+  intros Hk. destruct b as [|e|e]; cbn [in_bound_hi].
   - tauto.
-  - rewrite lt_succ_key. split.
-    + intros [H|H]; auto. destruct e; discriminate.
-    + intros [->|H]; auto. congruence.
+  - destruct e as [|x e'].
+    + split; auto.
+    + rewrite lt_succ_key. split.
+      * intros [H|H]; auto. discriminate.
+      * intros [H|H]; auto. discriminate.
   - tauto.
 Qed.
 
-(* the half-open byte range the code scans for rr contains exactly the keys of rr;
-   guard: the end is not "closed at the empty key" (see the refutation below) *)
-Theorem encode_range_spec_partial : forall rr k, k <> [] -> closed_end_nonempty rr ->
+(* the half-open byte range the code scans for rr contains exactly the keys of rr
+   (every rowrange, every non-empty key; an end closed at the empty key is "unset") *)
+Theorem encode_range_spec : forall rr k, k <> [] ->
   (in_srange (encode_range rr) k <-> in_row_range rr k).
 Proof.
-  intros [s e] k Hk Hg. unfold in_srange, in_row_range, encode_range, closed_end_nonempty in *. cbn [rs re rr_start rr_end] in *.
-  rewrite (encode_lo_spec s k Hk). rewrite (encode_hi_spec e k Hk Hg). tauto.
+  intros [s e] k Hk. unfold in_srange, in_row_range, encode_range in *. cbn [rs re rr_start rr_end] in *.
+  rewrite (encode_lo_spec s k Hk). rewrite <- (encode_hi_spec e k Hk). cbv zeta. tauto.
 Qed.
 
-(* FULL statement (forall rr k, k <> [] -> in_srange (encode_range rr) k <-> in_row_range rr k)
-   is false of the model (and of the Go code, which appends 0 to the empty closed end and
-   then scans keys < "\x00"): an end_key_closed set to the empty key selects NOTHING,
-   whereas validation treats the same bound as unset. *)
-Theorem encode_range_closed_empty_end_refuted :
-  exists rr k, k <> [] /\ in_row_range rr k /\ ~ in_srange (encode_range rr) k
-               /\ range_ok rr = true.
+(* the shape that used to select nothing: an end_key_closed set to the empty key is unbounded
+   above, exactly like an unset end -- every key that satisfies the start bound is inside *)
+Lemma encode_range_closed_empty_end_unbounded s k : k <> [] ->
+  (in_srange (encode_range (mkRange s (BClosed []))) k <-> in_bound_lo s k).
 Proof.
-  exists (mkRange BUnset (BClosed [])), [97%N]. split; [discriminate|]. split; [|split].
-  - split; cbn; auto.
-  - unfold in_srange. cbn. intros [_ [H|H]]; discriminate.
-  - reflexivity.
+  intros Hk. rewrite encode_range_spec by exact Hk. unfold in_row_range. cbn [rr_start rr_end in_bound_hi]. tauto.
 Qed.
 
-(* without the guard: exact meaning of the encoding of a closed empty end *)
-Lemma encode_range_closed_empty_end s k : k <> [] -> ~ in_srange (encode_range (mkRange s (BClosed []))) k.
-Proof.
-  intros Hk [_ [H|H]]; cbn in H; [discriminate|]. destruct k as [|n k']; [congruence|]. unfold lex_lt in H. cbn in H. destruct n; [destruct k'|]; discriminate.
-Qed.
+(* in particular it scans the same keys as the range with the end left unset, and with a
+   closed start every key >= start *)
+Lemma encode_range_closed_empty_end_as_unset s : encode_range (mkRange s (BClosed [])) = encode_range (mkRange s BUnset).
+Proof. reflexivity. Qed.
+
+Lemma encode_range_closed_empty_end_from_start s k : lex_le s k ->
+  in_srange (encode_range (mkRange (BClosed s) (BClosed []))) k.
+Proof. intros H. split; cbn [encode_range rr_start rr_end rs re]; auto. Qed.
 
 Theorem key_range_spec : forall x k, in_srange (key_range x) k <-> k = x.
 Proof.
@@ -155,13 +158,13 @@ Proof.
   - intros H. exists (key_range k). split; [apply in_map; auto|apply key_range_spec; auto].
 Qed.
 
-Lemma in_any_ranges ranges k : k <> [] -> Forall closed_end_nonempty ranges ->
+Lemma in_any_ranges ranges k : k <> [] ->
   (in_any (map encode_range ranges) k <-> exists rr, In rr ranges /\ in_row_range rr k).
 Proof.
-  intros Hk Hg. rewrite Forall_forall in Hg. unfold in_any. split.
+  intros Hk. unfold in_any. split.
   - intros [r [Hr H]]. apply in_map_iff in Hr. destruct Hr as [rr [<- Hrr]]. exists rr. split; auto.
-    apply encode_range_spec_partial; auto.
-  - intros [rr [Hrr H]]. exists (encode_range rr). split; [apply in_map; auto|]. apply encode_range_spec_partial; auto.
+    apply encode_range_spec; auto.
+  - intros [rr [Hrr H]]. exists (encode_range rr). split; [apply in_map; auto|]. apply encode_range_spec; auto.
 Qed.
 
 Lemma in_any_whole k : in_any [ {| rs := []; re := [] |} ] k.
@@ -179,11 +182,12 @@ Proof.
   - rewrite merge_union, in_any_app, in_any_keys. split; [auto|]. intros [[H _]|H]; [discriminate|auto].
 Qed.
 
-Theorem scan_ranges_union_partial : forall keys ranges k, k <> [] -> Forall closed_end_nonempty ranges ->
+(* all keys and ranges, every non-empty key *)
+Theorem scan_ranges_union : forall keys ranges k, k <> [] ->
   (in_any (scan_ranges keys ranges) k <-> requested keys ranges k).
 Proof.
-  intros keys ranges k Hk Hg. rewrite scan_ranges_any. unfold requested, in_rowset.
-  rewrite (in_any_ranges ranges k Hk Hg). tauto.
+  intros keys ranges k Hk. rewrite scan_ranges_any. unfold requested, in_rowset.
+  rewrite (in_any_ranges ranges k Hk). tauto.
 Qed.
 
 (* ------------------------------------------------------------------ *)
@@ -586,9 +590,11 @@ Proof.
       * cbn [snd]. apply has_output_iff. rewrite <- Hf. auto.
 Qed.
 
-(* "readrows_exact": against the RowSet meaning.  Guard: no range has its end closed at the empty key. *)
-Theorem scan_exact_partial : forall t keys ranges limit coins,
-  asorted (t_rows t) -> Forall (fun p => fst p <> []) (t_rows t) -> Forall closed_end_nonempty ranges -> limit <= 0 ->
+(* "readrows_exact": against the RowSet meaning, for every RowSet (no guard on the ranges).
+   The table carries no row with the empty key (the empty row key is a separate matter: the
+   RowSet convention reads an empty bound as unset, so it says nothing about the key []). *)
+Theorem scan_exact : forall t keys ranges limit coins,
+  asorted (t_rows t) -> Forall (fun p => fst p <> []) (t_rows t) -> limit <= 0 ->
   let res := scan_all t None limit (scan_ranges keys ranges) 0 coins [] in
   (forall r, In r res <->
      exists fs, In (row_key r, fs) (t_rows t) /\ requested keys ranges (row_key r)
@@ -596,11 +602,11 @@ Theorem scan_exact_partial : forall t keys ranges limit coins,
   /\ StronglySorted lex_lt (map row_key res)
   /\ NoDup (map row_key res).
 Proof.
-  intros t keys ranges limit coins Hs Hne Hg Hl res.
+  intros t keys ranges limit coins Hs Hne Hl res.
   destruct (scan_exact_ranges t keys ranges limit coins Hs Hl) as [H1 H2]. fold res in H1, H2. split; auto.
   intros r. rewrite H1. rewrite Forall_forall in Hne.
   split; intros [fs [Hin [Hr Hrest]]]; exists fs; (split; [exact Hin|split; [|exact Hrest]]);
-    apply (scan_ranges_union_partial keys ranges (row_key r)); auto; apply (Hne (row_key r, fs)); auto.
+    apply (scan_ranges_union keys ranges (row_key r)); auto; apply (Hne (row_key r, fs)); auto.
 Qed.
 
 (* ------------------------------------------------------------------ *)
